@@ -603,14 +603,67 @@ def r1_7(repo: Repo) -> RuleResult:
     return rr
 
 
-RULES = [r1_1, r1_2, r1_3, r1_4, r1_5, r1_6, r1_7]
+def _empty_range_test(test: ast.AST, loop: ast.For) -> Optional[str]:
+    """Recognise a test that can only be true when the block / chunk holds no rows."""
+    defs: Dict[str, List[ast.AST]] = {}
+    for s_ in loop.body:
+        for n in ast.walk(s_):
+            if isinstance(n, ast.Assign):
+                for t in n.targets:
+                    for nm in target_names(t):
+                        defs.setdefault(nm, []).append(n.value)
+    if isinstance(test, ast.Compare) and len(test.ops) == 1 and isinstance(test.ops[0], ast.Eq):
+        a, b = test.left, test.comparators[0]
+        if isinstance(a, ast.Name) and isinstance(b, ast.Name):
+            for lo, hi in ((a, b), (b, a)):
+                for d in defs.get(hi.id, []):
+                    if isinstance(d, ast.Call) and norm(d.func) == "min" and any(lo.id in names_in(x) for x in d.args):
+                        return "`%s`: %s = min(..., %s + size) equals %s only for an empty block" % (norm(test), hi.id, lo.id, lo.id)
+        for x, y in ((a, b), (b, a)):
+            if isinstance(x, ast.Call) and norm(x.func) == "len" and isinstance(y, ast.Constant) and y.value == 0 and isinstance(x.args[0], ast.Name):
+                return "`%s`: the chunk holds no items" % norm(test)
+    return None
+
+
+def r1_8(repo: Repo) -> RuleResult:
+    rr = RuleResult("R1.8", "block / chunk loops of transform skip an iteration only when the block is empty (no rows are dropped)", floor=2)
+    seen: Set[Tuple[str, int]] = set()
+    for c in exported_estimators(repo):
+        tr = repo.resolve_method(c, "transform")
+        if tr is None:
+            continue
+        pm = parents_map(tr.node)
+        for lp in [n for n in walk_no_nested(tr.node) if isinstance(n, ast.For)]:
+            if not (isinstance(lp.iter, ast.Call) and isinstance(lp.iter.func, ast.Name) and lp.iter.func.id == "range"):
+                continue
+            appends = [x for s_ in lp.body for x in ast.walk(s_) if isinstance(x, ast.Call) and isinstance(x.func, ast.Attribute)
+                       and x.func.attr == "append" and isinstance(x.func.value, ast.Name)]
+            if not appends:
+                continue
+            for j in [x for x in loop_level_jumps(lp) if isinstance(x, (ast.Continue, ast.Break))]:
+                if (tr.key, j.lineno) in seen:
+                    continue
+                seen.add((tr.key, j.lineno))
+                guard = next((a for a in ancestors(j, pm) if isinstance(a, ast.If)), None)
+                construct = "%s in `for %s in %s`" % (type(j).__name__.lower(), norm(lp.target), short(lp.iter, 30))
+                why = _empty_range_test(guard.test, lp) if guard is not None and any(guard is x for x in ast.walk(lp)) else None
+                if why:
+                    rr.ok(tr, construct, why, j.lineno)
+                else:
+                    rr.bad(tr, construct,
+                           "the iteration is abandoned under `%s`, which is not an empty-block test: the rows of that block / chunk never "
+                           "reach the result, so fewer rows come back than items went in" % (short(guard.test, 60) if guard is not None else "no condition"), j.lineno)
+    return rr
+
+
+RULES = [r1_1, r1_2, r1_3, r1_4, r1_5, r1_6, r1_7, r1_8]
 
 CLAIM = (
     "R1.1 every sparse matrix assembled from a coordinate/CSR triple on a transform path passes shape= whose column "
     "extent is over fitted state only (taint analysis from transform's arguments); R1.2 CSR row pointers advance by "
     "exactly the number of indices appended for the row; R1.3 each row loop terminates its row exactly once and has no "
     "loop-level continue/break/return; R1.4 every dictionary look-up in fitted vocabulary keyed by transform input is "
-    "guarded by an enumerated idiom; R1.5 out-of-range characters are mapped to code 0; R1.6 dense result buffers have one row per item and a fitted width; R1.7 the tree vectorizer labels its directional column blocks in the order it stacks them."
+    "guarded by an enumerated idiom; R1.5 out-of-range characters are mapped to code 0; R1.6 dense result buffers have one row per item and a fitted width; R1.7 the tree vectorizer labels its directional column blocks in the order it stacks them; R1.8 block / chunk loops skip an iteration only under an empty-block test."
 )
 NOT_DECIDED = (
     "that each column keeps its meaning beyond shape and guarded look-up (code->column mapping is under C06/C16), row "
